@@ -249,7 +249,7 @@ class CodedInputStream {
       }
     } else {
       if (buffer_ptr_ == buffer_end_ptr_) {
-        FillBuffer();
+        FillBuffer(true);
         if (at_eof_ && buffer_ptr_ == buffer_end_ptr_) {
           return;
         }
@@ -275,8 +275,10 @@ class CodedInputStream {
   void ReadFixedIntegerSlow(T& value) {
     if (buffer_ptr_ == buffer_end_ptr_) {
       FillBuffer();
-      ReadFixedIntegerFastFromArray(value, buffer_ptr_);
-      return;
+      if (RemainingBufferSpace() >= sizeof(T)) {
+        ReadFixedIntegerFastFromArray(value, buffer_ptr_);
+        return;
+      }
     }
 
     uint8_t bytes[sizeof(T)];
@@ -303,8 +305,10 @@ class CodedInputStream {
   void ReadVarIntegerSlow(T& value) {
     if (buffer_ptr_ == buffer_end_ptr_) {
       FillBuffer();
-      ReadVarIntegerFastFromArray(value, buffer_ptr_);
-      return;
+      if (RemainingBufferSpace() >= static_cast<size_t>(MAX_VARINT64_BYTES)) {
+        ReadVarIntegerFastFromArray(value, buffer_ptr_);
+        return;
+      }
     }
 
     value = 0;
@@ -330,7 +334,7 @@ class CodedInputStream {
     return static_cast<int64_t>((n >> 1) ^ (~(n & 1) + 1));
   }
 
-  size_t FillBuffer() {
+  size_t FillBuffer(bool allow_empty = false) {
     if (at_eof_) {
       throw EndOfStreamException();
     }
@@ -340,6 +344,11 @@ class CodedInputStream {
     auto bytes_read = stream_.gcount();
     buffer_ptr_ = buffer_.data();
     buffer_end_ptr_ = buffer_ptr_ + bytes_read;
+    if (bytes_read == 0 && !allow_empty) {
+      // The stream ended exactly at a buffer boundary: there is nothing to read.
+      throw EndOfStreamException();
+    }
+
     return bytes_read;
   }
 
